@@ -23,7 +23,9 @@ def handler (mode : String) (line : String) : String :=
               match outOf? o with
               | some out => verdictStr (Spec.check c out)
               | none => "fail step=0 clause=unparsable-observation"
-          | none => "(bad-case)"
+          | none =>
+              -- an ill-formed case must be rejected by the harness as well
+              if toStr o == "(bad-case)" then "ok" else "fail step=0 clause=ill-formed-case-accepted"
       | _ => "(bad-line)"
   | _ => "(bad-mode)"
 
